@@ -21,7 +21,7 @@ try:
     imports = m5lb.IMPORTS if "--mon" in sys.argv else m5lb.IMPORTS_MODEL
     rs = m5lb.coq_eval_traces(work, imports, outs, expr, "dev")
     print("coq", round(time.time() - t0, 1), "events", m5lb.n_events(outs))
-    bad = [(i, r) for i, r in enumerate(rs) if r not in (None, True)]
+    bad = [(i, r) for i, r in enumerate(rs) if not (r in (None, True) or (isinstance(r, tuple) and all(x is None for x in r)))]
     print("scenarios", len(outs), "not-ok", len(bad))
     for i, r in bad[:5]:
         print("scenario", i, "->", r)
